@@ -1,7 +1,7 @@
 (** Case language of the C14 correspondence check. The Go harness (harness/cmd/c14)
     writes [coq/gen/Cases_C14_*.v] with the inputs it gave to the implementation AND
     what the implementation returned; [check] re-runs the model. *)
-From CSS Require Import Lib.Base Lib.Cases Model.AddrMap.
+From CSS Require Import Lib.Base Lib.Cases Model.AddrMap Model.Delivered.
 
 Inductive case : Type :=
 (* PhysMemMapper: which = 0 Resolve, 1 ResolveFullImageOffset, 2 Unresolve, 3 UnresolveFullImageOffset;
@@ -35,7 +35,16 @@ Inductive case : Type :=
 (* ONE NodeVisitor object, several Runs (other trees, other AddOffset, other fallback setting,
    sub-trees): per Run the tree, the rows NameToRangesMap returns for it, and the ranges handed
    to the callback *)
-| CWalkSession (runs : list (vrun * obs (list range))).
+| CWalkSession (runs : list (vrun * obs (list range)))
+(* Data.RawBytes() of what a data source returned, on an image of [size] bytes of which
+   [win] are the bytes from offset [woff] on (Model/Delivered.v [win_content]); [rs] as handed
+   to the data source / as reported by the walker; [r] the delivered bytes.
+   kind 0: MemRanges(rs) (physical addresses, as given: overlapping, nested, repeated, unsorted,
+           empty, outside the image)
+   kind 1: UEFIGUIDFirst{g}; rs = the ranges the walker (container fallback on) handed over
+           for the objects named g, in visit order (image offsets, 2^64-1 = unknown)
+   kind 2: UEFIFiles(pred); rs likewise for the selected files *)
+| CDelivered (kind : Z) (size woff : Z) (win : list Z) (rs : list range) (r : obs (list Z)).
 
 Definition range_eqb (a b : range) : bool := (fst a =? fst b) && (snd a =? snd b).
 Definition ranges_eqb := list_eqb range_eqb.
@@ -84,6 +93,12 @@ Definition check (c : case) : bool :=
       && list_eqb ranges_eqb h hfinal
   | CWalkSession runs =>
       list_match (fun m o => obs_match ranges_eqb (snd o) m) (vsession v_fresh (map fst runs)) runs
+  | CDelivered kind size woff win rs r =>
+      let content := win_content size woff win in
+      obs_match zlist_eqb r
+        (if kind =? 0 then mem_ranges_bytes content rs
+         else if kind =? 1 then guid_first_bytes content rs
+         else uefi_files_bytes content rs)
   end.
 
 Definition mismatches := mismatches_by check.
